@@ -9,7 +9,7 @@
    orbit / uni / posix are oracles for unicode.SimpleFold orbits, Unicode tables and POSIX
    classes: the theorems hold for EVERY choice of them. *)
 From Coq Require Import ZArith List Bool String.
-From Elk Require Import Model.C21_RegexSyntax Model.C21_RegexSem Model.C03_RegexFront Proofs.C21_Regex.
+From Elk Require Import Model.C21_RegexSyntax Model.C21_RegexSem Model.C21_RegexExt Model.C03_RegexFront Proofs.C21_Regex Proofs.C21_RegexX.
 Import ListNotations.
 Open Scope Z_scope.
 
@@ -109,6 +109,52 @@ Example C21_extended_nonvacuous :
              transpile_text fx_only a = Some (str "a(?i:b|c)+"%string) /\
              transpile_text no_flags (strip_ws a) = Some (str "a(?i:b|c)+"%string)
   | _ => False
+  end.
+Proof. vm_compute. repeat split; reflexivity. Qed.
+
+(* The same with inline flag groups (second pass).  x can be switched by the text itself: a bare
+   `(?x)` / `(?-x)` changes how the REST of the enclosing group is read, `(?x:..)` / `(?-x:..)` how
+   their content is read, in any nesting, with the x flag of the literal on or off.  strip_x f a
+   (Model/C21_RegexExt.v, written without reference to the transpiler) threads that x state
+   through the tree, removes the whitespace character nodes exactly where x is on and erases x
+   from every flag group; comment_free f a says that no `#` character node stands where x is on
+   (a `#` where the text has switched x OFF is allowed: it is a literal, e.g. `a(?-x)#b` under x).
+   On every such tree regex.Transpile emits exactly the text (and failures) of the stripped,
+   x-free tree under the flags without x; in particular whitespace and `#` after `(?-x)` are kept
+   and whitespace after `(?x)` is dropped. *)
+Theorem C21_extended_flags_partial : forall f a,
+  comment_free f a = true ->
+  transpile_text f a = transpile_text (erase_x f) (strip_x f a).
+Proof. exact extended_flags_text. Qed.
+Print Assumptions C21_extended_flags_partial.
+
+(* ... and the stripped tree is inside the scope of C21_transpile_sound (no flag group of it
+   mentions x), so its emitted term matches exactly the subjects the stripped tree denotes. *)
+Theorem C21_extended_flags_sound : forall orbit uni posix (s : list Z) f a,
+  comment_free f a = true -> transpile_text f a <> None ->
+  transpile_text f a = transpile_text (erase_x f) (strip_x f a)
+  /\ matches_re2 orbit uni posix s (transpile (erase_x f) (strip_x f a))
+     = matches_elk orbit uni posix s (erase_x f) (strip_x f a).
+Proof. exact extended_flags_sound. Qed.
+Print Assumptions C21_extended_flags_sound.
+
+(* `a(?-x)#b` under x is the text a#b; `(?x) a (?-x: # b) c #` without x: whitespace dropped
+   where (?x) is on, kept with the `#` inside (?-x:..), and the last `#` (x on again) is a
+   comment start, so that tree is NOT comment_free *)
+Example C21_extended_flags_nonvacuous :
+  match regex_front true 200 (str "a(?-x)#b"%string),
+        regex_front true 200 (str "(?x) a (?-x: # b) c"%string),
+        regex_front true 200 (str "(?x) a (?-x: # b) c #"%string) with
+  | ROk a, ROk b, ROk c =>
+      comment_free fx_only a = true /\
+      transpile_text fx_only a = Some (str "a#b"%string) /\
+      transpile_text no_flags (strip_x fx_only a) = Some (str "a#b"%string) /\
+      mentions_x (strip_x fx_only a) = false /\
+      comment_free no_flags b = true /\
+      transpile_text no_flags b = Some (str "a(?: # b)c"%string) /\
+      transpile_text no_flags (strip_x no_flags b) = Some (str "a(?: # b)c"%string) /\
+      comment_free no_flags c = false
+  | _, _, _ => False
   end.
 Proof. vm_compute. repeat split; reflexivity. Qed.
 
